@@ -55,7 +55,7 @@ class CFG:
         for e in self.edges:
             self.succ.setdefault(e.src, []).append(e)
             self.pred.setdefault(e.dst, []).append(e)
-        self._canon: Optional[Canon] = None
+        self._canon = None
         self._facts: Optional[dict[int, Optional[frozenset]]] = None
 
     # ------------------------------------------------------------------ build
@@ -187,11 +187,14 @@ class CFG:
         return to in self.reachable_from(frm)
 
     # ------------------------------------------------------------------ facts
-    def canon(self) -> Canon:
+    def canon(self):
+        """expression canonicaliser of this function whose results are in the same (expanded, re-numbered) normal
+        form as ``canon_function(fi, expand=True)``"""
         if self._canon is None:
             c = Canon(self.fi, self.model, CanonOptions())
-            c.function()           # fills the single-definition environment
-            self._canon = c
+            raw = c.function()           # fills the single-definition environment
+            from .canon import Normalizer
+            self._canon = _NormCanon(c, Normalizer(raw, keep_identity=False))
         return self._canon
 
     def cond_facts(self, test: ast.expr, polarity: bool) -> list[S]:
@@ -252,6 +255,18 @@ class CFG:
     def facts_at(self, node_id: int) -> frozenset:
         f = self.facts()[node_id]
         return f if f is not None else frozenset()
+
+
+class _NormCanon:
+    def __init__(self, canon: Canon, normalizer):
+        self.c = canon
+        self.n = normalizer
+
+    def expr(self, e: ast.expr) -> S:
+        return self.n.apply(self.c.expr(e))
+
+    def expr_store(self, t: ast.expr) -> S:
+        return self.n.apply(self.c.expr_store(t))
 
 
 def _mentions(fact: S, kill: S) -> bool:
